@@ -279,8 +279,6 @@ class Executor:
         c = simp(cond)
         if is_true(c):
             return True
-        if is_false(c):
-            return False
         s = z3.Solver()
         s.set("timeout", timeout_ms)
         for t in state.pc:
@@ -514,14 +512,23 @@ class Executor:
         s2 = state.copy()
         state.assume(c)
         s2.assume(z3.Not(c))
-        o1 = self.exec_block(state, st.body)
-        o2 = self.exec_block(s2, st.orelse) if st.orelse else [Outcome("normal", s2)]
+        o1 = self._branch(state, st.body)
+        o2 = self._branch(s2, st.orelse) if st.orelse else [Outcome("normal", s2)]
         normals = [o.state for o in o1 + o2 if o.kind == "normal"]
         rest = [o for o in o1 + o2 if o.kind != "normal"]
         m = merge_states(normals) if normals else None
         if m is not None:
             rest.append(Outcome("normal", m))
         return outs + rest
+
+    def _branch(self, state, stmts):
+        """a branch that leaves the modelled subset is only a problem if it is reachable"""
+        try:
+            return self.exec_block(state, stmts)
+        except Unsupported:
+            if self.prove_quick(state, z3.BoolVal(False), timeout_ms=1000):
+                return []           # infeasible under the path condition (e.g. excluded by `requires`)
+            raise
 
     def st_Try(self, state, st):
         outs = []
